@@ -204,6 +204,9 @@ func (c06) Gen(r *world.Rng, tier string, n int) interface{} {
 		case x < 66:
 			prog = append(prog, 0x3e, uint8(r.Range(0x20, 0xef)))
 			prog = append(prog, miLDIA...)
+			if r.Bool() {
+				prog = append(prog, 0xed, 0x57) // LD A,I: reads the flip-flops into P/V - and nothing else
+			}
 		case x < 76:
 			s := subs[r.Intn(2)]
 			prog = append(prog, 0xcd, uint8(s), uint8(s>>8))
@@ -247,6 +250,9 @@ func (c06) Gen(r *world.Rng, tier string, n int) interface{} {
 			case x < 11:
 				return hex.EncodeToString([]uint8{0xc3, uint8(tc), uint8(tc >> 8)}) // JP nn: the supplied instruction need not push
 			default:
+				if r.Chance(1, 3) {
+					return hex.EncodeToString([]uint8{0xed, []uint8{0x4d, 0x45}[r.Intn(2)]}) // RETI / RETN on the bus
+				}
 				return hex.EncodeToString(append([]uint8{0xc9}, r.Bytes(r.Intn(3))...)) // RET (+ padding): reads the stack in memory
 			}
 		default:
@@ -364,7 +370,7 @@ func (c06) Exec(sci interface{}, env *Env) *Violation {
 				// they come from memory or from the device (writes into that range must reach memory:
 				// repaired defect D6)
 				l := uint16(len(req.Data))
-				if l > 0 && req.Data[0] == 0xc9 && (before.SP-before.PC < l || (before.SP+1)-before.PC < l) {
+				if l > 0 && (req.Data[0] == 0xc9 || req.Data[0] == 0xed) && (before.SP-before.PC < l || (before.SP+1)-before.PC < l) {
 					env.Class("stop/sp-in-overlay")
 					return nil
 				}
@@ -546,7 +552,7 @@ func (c06) Exec(sci interface{}, env *Env) *Violation {
 				}
 			}
 			okW := len(wr) == 2 && ((wr[0].Addr == before.SP-1 && wr[1].Addr == before.SP-2) || (wr[0].Addr == before.SP-2 && wr[1].Addr == before.SP-1))
-			im0ret := c.Last == model.KAcceptIM0 && reqCopy.Data[0] == 0xc9
+			im0ret := c.Last == model.KAcceptIM0 && (reqCopy.Data[0] == 0xc9 || reqCopy.Data[0] == 0xed) // RET, RETI, RETN
 			if c.Last == model.KAcceptIM0 && (reqCopy.Data[0] == 0xc3 || im0ret) {
 				okW = len(wr) == 0 // a supplied JP nn / RET stores nothing
 			}
@@ -573,6 +579,8 @@ func (c06) Exec(sci interface{}, env *Env) *Violation {
 			env.Fire("accept/" + c.Last.String())
 			if c.Last == model.KAcceptIM0 {
 				switch d := reqCopy.Data; {
+				case d[0] == 0xed:
+					env.Fire("mode0-supplied-RETI/RETN")
 				case d[0] == 0xc9:
 					env.Fire("mode0-supplied-RET")
 				case d[0] == 0xc3:
